@@ -401,6 +401,7 @@ func checkC19(c *ctx) {
 		scen{name: "merge with a clustered memory-efficient input", inputs: []zh.Batch{mkBatch(510, 2, 1, "md"), mkBatch(3, 1, 1, "me")}, drops: [][]uint64{{7}, nil}, ivf: true, fields: sx.L(sx.L(sx.N(2), sx.Bool(true)))})
 	optFor = "recall"
 	scens = append(scens,
+		scen{name: "merge with an input of 4200 live vectors", inputs: []zh.Batch{mkBatch(2100, 2, 1, "va"), mkBatch(3, 1, 1, "vb")}, drops: [][]uint64{nil, {1}}, ivf: true, fields: sx.L(sx.L(sx.N(2), sx.Bool(true)))},
 		scen{name: "merge of a clustered input without deletions and two fully deleted small segments (a single clustered contributor)", inputs: []zh.Batch{mkBatch(2, 1, 1, "ua"), mkBatch(520, 2, 1, "ub"), mkBatch(2, 1, 1, "uc")}, drops: [][]uint64{{0, 1}, nil, {0, 1}}, ivf: true, fields: sx.L(sx.L(sx.N(1), sx.Bool(true)))})
 	ops := []string{"IndexFactory", "SetDirectMap", "Train", "AddWithIDs", "WriteIndexIntoBuffer", "ReadIndexFromBuffer", "ReconstructBatch"}
 	firstDiffers := ""
